@@ -748,7 +748,7 @@ impl Property for C14 {
          isqrt site (identity for encode, s = +-1 for decode). Substitutions through the guarded ISQRT_HINT hook at one site or at all sites: flag in \
          {honest, true, false, flipped} x y in {honest, -y, 0, +-1, +-sqrt(1/den), +-sqrt(zeta/den), y times a 2-power root of unity, random} (the \
          enumerated set contains every (flag, y) able to satisfy any single case equation; the edge list applies all 47 of them to every gadget \
-         instance). A second hint family needs no hook: after an honest synthesis every run of 253 boolean witnesses (a bit decomposition behind a sign test) is replaced by the bits of value + q (non-canonical decomposition, flipped parity) directly in the witness assignment. Coordinate faults through verif_from_affine_unchecked: off-curve pairs, P+T4, 4-torsion, (0,0), (x,0), (0,y), scaled valid points. \
+         instance). A second hint family needs no hook: after an honest synthesis every run of 253 boolean witnesses (a bit decomposition behind a sign test) is replaced by the bits of value + q (non-canonical decomposition, flipped parity) directly in the witness assignment. A third family attacks every witness, not only the hints: the finished system is extracted as matrices, one witness variable (all of them for the small gadget instances, a seeded sample otherwise) is set to another value (booleans flipped; otherwise -v, v+1, 0, 1), the witnesses allocated after it are re-derived by constraint propagation (single later unknown solved linearly, several later booleans solved as a bit decomposition), on the honest run and on the first substituted runs; a forgery that satisfies the whole system with every free input unchanged must leave every observable output equal to native. Coordinate faults through verif_from_affine_unchecked: off-curve pairs, P+T4, 4-torsion, (0,0), (x,0), (0,y), scaled valid points. \
          Oracle: satisfied => native accepts the input and every output equals the native output (for offered coordinates: they are a valid \
          representative and the returned variable denotes it). Non-trivial: a dishonest substitution or invalid coordinates on a non-constant input; \
          distinct by digest. Evidence: gadget x substitution x {sat, unsat} in `classes`, number of den = 0 sites exercised"
@@ -756,7 +756,9 @@ impl Property for C14 {
     }
     fn assumptions(&self) -> Vec<String> {
         vec![
-            "soundness of the gadgets of ark-r1cs-std themselves (bit decomposition, is_eq, inverse, conditional select) is assumed, not attacked".into(),
+            "soundness of the gadgets of ark-r1cs-std themselves (bit decomposition, is_eq, inverse, conditional select) is assumed by the hint families; witness forging attacks the whole system including them".into(),
+            "witness forging is incomplete by construction: re-derivation solves only linear-in-the-newest-variable constraints and bit decompositions, so hints that need a square root to be recomputed are reached through the hint substitutions, not through forging; a forgery that fails to complete is counted as rejected".into(),
+            "forged assignments at a synthesis that contains a den = 0 isqrt site are excluded (counted): they re-find the known finding".into(),
             "a panic or synthesis error while synthesising with dishonest hints is a prover-side failure, counted as 'unsat'".into(),
             "new_variable_omit_prime_order_check is documented as unchecked and is not a gadget in the sense of the property".into(),
             format!("known finding tolerated by exact signature: {KNOWN_DEN0}"),
@@ -920,7 +922,7 @@ impl Property for C14 {
         }
     }
     fn required_classes(&self, _tier: Tier) -> Vec<String> {
-        vec!["den=0-sites-exercised".into(), "isqrt-sites".into(), "coords:P+T4(out-of-group):invalid".into(), "coords:scaled-valid(off-curve,same-ratio):invalid".into(), "coords:valid:valid".into(), "decompress-raw:invalid-encoding".into()]
+        vec!["den=0-sites-exercised".into(), "isqrt-sites".into(), "forged-witness|rejected".into(), "forged-witness|satisfied,observables-unchanged(free internal witness)".into(), "coords:P+T4(out-of-group):invalid".into(), "coords:scaled-valid(off-curve,same-ratio):invalid".into(), "coords:valid:valid".into(), "decompress-raw:invalid-encoding".into()]
     }
     fn extra_coverage(&self, classes: &mut std::collections::BTreeMap<String, u64>, cov: &mut serde_json::Map<String, serde_json::Value>) {
         let sat: u64 = classes.iter().filter(|(k, _)| k.ends_with("|sat")).map(|(_, v)| *v).sum();
